@@ -106,7 +106,7 @@ def main(tier, seed):
     try:
         translate()
         run.obligation("translate:all generated pieces used by C01", True)
-    except TranslateError as e:
+    except Exception as e:  # fail closed: anything the translator cannot digest
         run.obligation("translate:all generated pieces used by C01", False, str(e))
     run.prove("Props/C01.v", link_rels=["Link/MIS.v", "Link/Posterior.v", "Link/Schedule.v", "Link/Kernel.v", "Link/Resample.v"],
               allowed_axioms=STDLIB_AXIOMS_REALS)
@@ -116,4 +116,16 @@ def main(tier, seed):
     except Exception:
         import traceback
         run.broken.append(("harness-exception", traceback.format_exc()[-1500:]))
-    run.finish(search=None)
+    def search(r):
+        # something no longer checks: look harder where the estimator is most fragile (hard prior boundary, RWM, more seeds)
+        R = 192
+        cfg = dict(clustering=False, sample="rwm")
+        res = ens.run_ensemble("edge", cfg, R, 64, 5600)
+        ok = [x for x in res if x["ok"]]
+        true0 = -5.0 + ens.S * math.sqrt(2 / math.pi)
+        e0, se0 = ens.stats([x["mean"][0] for x in ok], true0)
+        r.extra["search_edge"] = dict(runs=len(ok), edge_mean_err=round(e0, 4), se=round(se0, 4))
+        if abs(e0) > 4 * se0 + 0.01:
+            r.fail("hard-boundary-bias-in-posterior", f"posterior abutting a hard prior boundary: mean of the abutting coordinate is off by {e0:+.3f} "
+                   f"(se {se0:.3f}) over {len(ok)} seeds", target="edge", cfg=cfg, runs=R, n_particles=64, seeds="5600..")
+    run.finish(search=search)
